@@ -48,7 +48,9 @@ ExpandLogic(h) ==
                                        Cmp("eq", BoolL("TRUE"), BoolL("true")), Cmp("ne", BoolL("False"), BoolL("FALSE")),
                                        Cmp("eq", FL("1.50"), FL("1.5")), Cmp("ne", FL("1E3"), FL("1e3")), Cmp("eq", IntL(1), IntL(1)),
                                        \* list items that are not literals
-                                       Cmp("in", nC, Lst(<<mC, IntL(3)>>)), Cmp("in", nC, Lst(<<Bin("add", mC, IntL(1)), Bin("sub", IntL(0), mC)>>)) } }
+                                       Cmp("in", nC, Lst(<<mC, IntL(3)>>)), Cmp("in", nC, Lst(<<Bin("add", mC, IntL(1)), Bin("sub", IntL(0), mC)>>)),
+                                       \* list members that repeat (every member is rendered, in its place)
+                                       Cmp("in", nC, Lst(<<IntL(1), IntL(3), IntL(1)>>)), Cmp("in", mC, Lst(<<nC, IntL(3), nC>>)) } }
                   \cup { <<1, Bool("and", HB, HB)>>, <<1, Bool("or", HB, HB)>>, <<1, Un("not", HB)>>,
                          <<1, Cmp("eq", HB, BoolL("true"))>>, <<1, Cmp("ne", HB, BoolL("false"))>> }
                   \* chains of three and four operands of one connective whose FIRST operand is a group of the other one
